@@ -5,12 +5,12 @@ namespace Sakura.Dt
 open Sakura Sakura.Spec
 
 /-- events the dump can show in full: on top of `Valid`, a tempo meta holds 3 bytes and a time signature at least 2 (the dump reads
-    them at fixed offsets), a SysEx is `F0 … F7` without an inner F7 and short enough for a one-byte length -/
+    them at fixed offsets), a SysEx begins with F0 (any length, any data bytes — an F7 among them is data) -/
 def DValid (e : Event) : Prop :=
   Valid e ∧
   match e.kind with
   | .metaEv => (e.v2 = 0x51 → e.data.length = 3) ∧ (e.v2 = 0x58 → 2 ≤ e.data.length)
-  | .sysex => ∃ body, e.data = 0xF0 :: (body ++ [0xF7]) ∧ 0xF7 ∉ body ∧ body.length + 1 < 128
+  | .sysex => ∃ rest, e.data = 0xF0 :: rest
   | _ => True
 
 theorem encTrack_append (a b : List (Nat × Msg)) : encTrack (a ++ b) = encTrack a ++ encTrack b := by
@@ -39,8 +39,8 @@ theorem body_enc (e : Event) (hv : DValid e) (hs : skipped e = false) (d : Nat) 
   · simp [body, expected1, hkind, encTrack, encEv, encMsg, status_eq _ _ h0 h16, WF, hc, clamp7_lt]
   · simp [body, expected1, hkind, encTrack, encEv, encMsg, status_eq _ _ h0 h16, WF, hc, clamp7_lt]
   · -- pitchBend
-    have hl : (e.v1 % 128).toNat < 128 := by omega
-    have hm : ((e.v1 / 128) % 128).toNat < 128 := by omega
+    have hl : (clamp14 e.v1 % 128).toNat < 128 := by omega
+    have hm : ((clamp14 e.v1 / 128) % 128).toNat < 128 := by omega
     simp [body, expected1, hkind, encTrack, encEv, encMsg, status_eq _ _ h0 h16, WF, hc, hl, hm]
   · -- pitchBendRange
     have hr : (if 0 ≤ e.v1 ∧ e.v1 ≤ 24 then e.v1.toNat else 0) < 128 := by split <;> omega
@@ -60,16 +60,14 @@ theorem body_enc (e : Event) (hv : DValid e) (hs : skipped e = false) (d : Nat) 
     · intro h; exact hd.1 (by omega)
     · intro h; exact hd.2 (by omega)
   · -- sysex
-    obtain ⟨b, hb, hnf, hbl⟩ := hd
-    have hl : e.data.length - 1 = b.length + 1 := by rw [hb]; simp
+    obtain ⟨b, hb⟩ := hd
     refine ⟨?_, ?_⟩
     · simp only [body, expected1, hkind, encTrack, encEv, encMsg, hb]
-      simp [encodeDelta_small _ hbl]
+      simp
     · intro x hx
       simp only [expected1, hkind, List.mem_cons, List.not_mem_nil, or_false] at hx
       subst hx
-      simp only [WF, hb, List.tail_cons]
-      exact ⟨by simpa using hbl, b, rfl, hnf⟩
+      simp only [WF]
   · -- directSmf: always skipped under Valid
     simp [skipped, hkind, hval] at hs
 
